@@ -255,3 +255,44 @@ def _bp0(prop, case, f):
         return False
     plan = f.get("plan") or []
     return any(k == "bp" and i < len(plan) - 1 for i, (k, n) in enumerate(plan))
+
+
+@pred("thrift-serialisation-buffer-overflow")
+def _thrift_buf(prop, case, f):
+    # ThriftObject.to_bytes allocates max(500000, 1000*ncols*nrgs + len(str(key_values))) bytes and write_thrift memcpy()s strings
+    # into it without a bounds check: any metadata whose serialised form is larger (long statistics, names, paths, created_by)
+    # corrupts the heap (abort / segfault)
+    if f.get("kind") not in ("process_crash", "hang") or "big" not in case or case.get("big") == "kv_value":
+        return False
+    est = case["size"] * (1.5 if case["big"] == "statistics_max" else 1.0)
+    return est >= 499000
+
+
+@pred("thrift-long-form-field-header-misparsed")
+def _thrift_long(prop, case, f):
+    # read_thrift adds the 4-bit delta to the field id and never reads the zigzag id that follows a header with delta 0
+    return bool(case.get("long_form")) and case.get("route") == "foreign"
+
+
+@pred("thrift-field-ids-ge-14-dropped")
+def _thrift_14(prop, case, f):
+    # write_thrift loops `for i in range(1, 14)`: ColumnMetaData.bloom_filter_offset (14) and LogicalType.UUID (14) vanish on re-serialisation
+    if f.get("kind") == "value_changed" and f.get("got") == "<absent>":
+        return f.get("path", "").endswith((".bloom_filter_offset", ".UUID", ".bloom_filter_length"))
+    if f.get("kind") == "idl_violation" and f.get("code") == "UNION_ARITY":
+        return f.get("lost_members") == ["UUID"] and "0 fields set" in f.get("detail", "")
+    return False
+
+
+@pred("thrift-i8-i16-fields-reemitted-as-i64")
+def _thrift_small(prop, case, f):
+    # read_thrift stores i8 / i16 values as plain ints without remembering their width (i8 additionally as unsigned byte);
+    # write_thrift emits every int as i32 or i64
+    if f.get("kind") == "idl_violation" and f.get("code") == "WIRE_TYPE":
+        return f.get("where", "").endswith(("IntType.bitWidth", "RowGroup.ordinal")) and ("found 6" in f.get("detail", "") or "found 5" in f.get("detail", ""))
+    if f.get("kind") == "value_changed" and f.get("path", "").endswith(".bitWidth"):
+        try:
+            return int(f["expected"]) < 0 and int(f["got"]) == int(f["expected"]) + 256
+        except Exception:
+            return False
+    return False
